@@ -369,7 +369,7 @@ Qed.
 
 Lemma mv_xor_pointwise : vec_pointwise mv_xor_arr mv_xor1.
 Proof.
-  intros pat l L. unfold mv_xor_arr. rewrite <- L, bshape_same, Nat.eqb_refl.
+  intros pat l L. unfold mv_xor_arr. rewrite <- L, bshape_same.
   eexists. split; [reflexivity|]. split; [now rewrite map_length, seq_length|].
   intros j Hj. rewrite nth_map_seq by auto.
   rewrite (bget_eq pat (List.length pat)) by auto. rewrite (bget_eq l (List.length pat)) by auto.
